@@ -1015,9 +1015,13 @@ def gen_class_body(rng, c, classes, meta):
                 m = rng.choice(sorted(M_ARITY))
                 ar = M_ARITY[m]
                 lp = ["x%d" % i for i in range(ar)]
-                # (the lambda must not mention `self`: known finding D27, an initialiser whose closure
-                # captures `self` returns the box; self-capturing lambdas are installed by methods below)
+                # the lambda may mention `self` (the shape of the repaired finding D27: an initialiser whose closure
+                # captures `self` returned the box instead of the instance); methods install such lambdas too
                 terms = [num(rng.randint(100, 900))] + [var(p) for p in lp]
+                if numeric and rng.random() < 0.6:
+                    terms.append(self_field(rng, rng.choice(numeric)))
+                    meta["lambda_self"] += 1
+                    meta["lambda_self_in_init"] = meta.get("lambda_self_in_init", 0) + 1
                 if params and rng.random() < 0.4:
                     terms.append(var(rng.choice(params)))
                 val = ("lam", lp, [("ret", add(*terms))]) if rng.random() < 0.85 else ("nil",)
